@@ -15,7 +15,7 @@ CLAIMED = {
          "adversary model as listed in the evidence assumptions; bounded depth, 3 accounts, 2 browsers"),
  "C03": ("model_checking", "4/C03", E1 + "; lockedness decided by the C04 reference automaton advanced on the same history, not by what storage says",
          "Every login path (password, OTP, OAuth2 callback, recover-and-login, TOTP/SMS second step) is enumerated against lock / confirm state changes (failures, administrator lock/unlock, re-started confirmation, lock expiry) in both handler orders; a newly issued session requires the account to be unlocked and confirmed in the pre-state, and the handler behind lock/confirm middleware only ever runs for such users.",
-         "lock.Middleware / confirm.Middleware placed behind authboss.Middleware2 (README); bounded depth"),
+         "lock.Middleware / confirm.Middleware behind authboss.Middleware2 (README) and on their own (guard route, also with the user load failing); bounded depth"),
  "C04": ("model_checking", "4/C04", E1 + " with a reference automaton (count, last attempt, locked-until) compared with storage and a probe login after every step; fixpoint on small-duration configurations",
          "The lock module's stored state is compared, after every step of every history over {correct/wrong password, OTP, TOTP code, manual lock/unlock, clock advances on either side of LockWindow/LockDuration}, with an independent automaton written from the statement, across a grid of LockAfter x window x duration; small configurations run to a fixpoint so histories of any length are covered.",
          "expiry at exactly LockDuration not asserted; at most LockAfter+2 counted failures in a row"),
@@ -60,15 +60,15 @@ CLAIMED.update({
          "timing out of scope; pair (c) only where the lock automaton says the attempt does not lock"),
  "C17": ("model_checking", "4/C17", E1 + " over the union of successful and failing steps of every flow; substring scan of all stored fields and of each transition's log lines for every plaintext the oracle knows",
          "All-modules histories (form and JSON) including near-miss inputs a user really produces; after every transition passwords, OTPs, recovery codes, remember cookies and mailed tokens (also URL-encoded and unpadded spellings) are searched for in every stored field, the remember table and the log, and token mails are checked against the owner's addresses.",
-         "TOTP secrets / session-held SMS and e-mail-verify values outside the statement; no faults or malformed escapes in this alphabet"),
+         "TOTP secrets / session-held SMS and e-mail-verify values outside the statement; of the backends only the mailer and the mail templates are made to fail; no malformed percent-escapes in this alphabet"),
  "C18": ("fault_enumeration", "4/C18", "fault enumeration (E3): every backend call of every request of scripted tours through all handlers is failed in turn, each error kind, both error handlers; four oracles incl. credential-acceptance probes on clones",
          "For each request of tours covering every handler of every flow, each storage / hasher / renderer / SMS call it makes fails once (generic error and the interface's not-found sentinel) under the silent and the 500-writing handler: no panic, success implies saved, a session issued on a one-time credential implies its durable consumption, and no credential becomes acceptable that was not before and is not after the same request without the failure.",
-         "single faults; mailer and client-state store failures not injected"),
+         "quick: single faults, thorough: also pairs within one request; mailer and client-state store failures not injected (the statement names storage, hasher, renderer, SMS sender)"),
  "C19": ("exploration", "4/C19", E2 + ": complete product of registration bodies against a reference validator; Rules.IsValid against an independent reference for all strings up to a length x a rule grid",
-         "Every combination of email / password / confirm_password classes and every subset of seven hostile extra fields, from an empty and a populated table, with and without confirm, form and JSON, two whitelists; plus 3.3e8 (thorough) rule evaluations.",
+         "Every combination of email / password / confirm_password classes and every subset of seven hostile extra fields, from an empty table, a populated one and one holding the account unconfirmed, with and without confirm, form and JSON, two whitelists, each valid request also with every backend call failing in turn; plus 3.3e8 (thorough) rule evaluations.",
          "byte lengths, ASCII class representatives"),
  "C20": ("model_checking", "4/C20", "controlled scheduler (E5): stateless DFS over ALL schedules with at most 1 (quick) / 2 (thorough) preemptions at the harness seams, run directly on the real instance; solo-run equivalence, deadlock and tracked-cell oracles; plus a free-running Go race detector pass over all script pairs",
-         "Client scripts (register>confirm>login, login(rm)>restart>open, recover, e-mail verify, OTP) run as logical threads on one initialised instance with the shipped router, body reader, responder, redirector, logger and both mailers (SMTPMailer through an in-memory net/smtp), mail goroutines included; every schedule within the preemption bound is executed and each client's transcript must equal its solo run; the same bodies run free under -race with their k-th requests aligned.",
+         "Six client scripts (register>confirm>login, refused>login(rm)>restart>open, recover, e-mail verify, OTP, OAuth2 round trip) run as logical threads on one initialised instance with the shipped router, body reader, responder, redirector, logger and both shipped mailers (LogMailer into a byte sink, SMTPMailer through an in-memory net/smtp), per-client template data, mail goroutines included; every schedule within the preemption bound is executed and each client's transcript (responses, session, own rows, mails byte for byte) must equal its solo run; the same bodies run free under -race, once aligned on a shared world and then with a private world per client so that the harness orders no two clients for the detector.",
          "scheduling points at seams (storer, mailer/SMTP, SMS, client state, crypto/rand before and after, mutexes, goroutine spawn, tracked cells); finer memory orderings are the race detector's part"),
 })
 NA = {}
